@@ -1455,6 +1455,15 @@ static void htp_mpartp_validate_content_type(bstr *content_type, uint64_t *flags
     unsigned char *data = bstr_ptr(content_type);
     size_t len = bstr_len(content_type);
     size_t counter = 0;
+    // The last equals character, looked up once (every "boundary" word
+    // used to search the rest of the value for one).
+    unsigned char *last_eq = NULL;
+    for (size_t k = len; k > 0; k--) {
+        if (data[k - 1] == '=') {
+            last_eq = data + k - 1;
+            break;
+        }
+    }
 
     while (len > 0) {
         int i = bstr_util_mem_index_of_c_nocase(data, len, "boundary");
@@ -1467,7 +1476,7 @@ static void htp_mpartp_validate_content_type(bstr *content_type, uint64_t *flags
         // the word "boundary" in their boundary, we also require one
         // equals character the follow the words.
         // "multipart/form-data; boundary=----WebKitFormBoundaryT4AfwQCOgIxNVwlD"
-        if (memchr(data, '=', len) == NULL) break;
+        if ((last_eq == NULL) || (last_eq < data)) break;
 
         counter++;
 
